@@ -18,9 +18,11 @@ pub proof fn axiom_key_views<'a>()
 pub struct BucketMap<'b> { _p: core::marker::PhantomData<&'b ()> }
 impl<'b> BucketMap<'b> {
     pub uninterp spec fn has(&self, k: Seq<u8>) -> bool;
+    // the handle (cell) registered under a name; meaningful where has(k)
+    pub uninterp spec fn cell(&self, k: Seq<u8>) -> Rc<RefCell<InnerBucket<'b>>>;
     #[verifier::external_body]
     fn remove(&mut self, k: &Bytes<'b>) -> (r: Option<Rc<RefCell<InnerBucket<'b>>>>)
-        ensures r matches Some(rc) ==> child_root_ok((*rc).cur()),
+        ensures r matches Some(rc) ==> child_root_ok((*rc).cur()) && rc == old(self).cell(key_view(*k)),
             old(self).has(key_view(*k)) ==> r is Some,
     { unimplemented!() }
 }
@@ -221,10 +223,13 @@ impl<'b> BucketMap<'b> {
     #[verifier::external_body]
     fn insert(&mut self, k: Bytes<'b>, v: Rc<RefCell<InnerBucket<'b>>>) -> (r: Option<Rc<RefCell<InnerBucket<'b>>>>)
         ensures forall|q: Seq<u8>| #[trigger] final(self).has(q) == (old(self).has(q) || q == key_view(k)),
+            final(self).cell(key_view(k)) == v,
+            forall|q: Seq<u8>| q != key_view(k) ==> #[trigger] final(self).cell(q) == old(self).cell(q),
     { unimplemented!() }
     #[verifier::external_body]
     fn get(&self, k: &Bytes<'b>) -> (r: Option<&Rc<RefCell<InnerBucket<'b>>>>)
         ensures self.has(key_view(*k)) ==> r is Some,
+            r matches Some(rc) ==> *rc == self.cell(key_view(*k)),
     { unimplemented!() }
 }
 impl<'b> InnerBucket<'b> {
@@ -236,6 +241,7 @@ impl<'b> InnerBucket<'b> {
             final(self).tree@ == old(self).tree@, final(self).muts@ == old(self).muts@ + 1,
             final(self).puts@ == old(self).puts@, final(self).depth@ == old(self).depth@,
             forall|q: Seq<u8>| #[trigger] final(self).buckets.has(q) == (old(self).buckets.has(q) || q == key_view(name)),
+            forall|q: Seq<u8>| q != key_view(name) ==> #[trigger] final(self).buckets.cell(q) == old(self).buckets.cell(q),
     { unimplemented!() }
     #[verifier::external_body]
     fn from_meta(meta: BucketMeta, pages: Pages) -> (r: InnerBucket<'b>)
